@@ -40,6 +40,10 @@ var c13Injections = []string{
 	"corrupt-earlier", // corrupted copy of the first genuine server datagram
 }
 
+func c13PairKind(n string) bool {
+	return n == "vn-other-versions" || n == "retry-valid-tag" || n == "initial-wrong-scid-close"
+}
+
 type c13Inject struct {
 	Kind int      `json:"kind"`
 	At   sim.Slot `json:"at"` // the forged packet is put on the wire when this datagram is sent
@@ -50,6 +54,7 @@ type c13Config struct {
 	Kind     string       `json:"kind"` // plain | chrome115
 	Faults   sim.FaultMap `json:"faults"`
 	Inject   *c13Inject   `json:"inject,omitempty"`
+	Inject2  *c13Inject   `json:"inject2,omitempty"` // a second forged packet in the same execution
 	Seed     uint64       `json:"seed"`
 }
 
@@ -57,6 +62,9 @@ func (c c13Config) String() string {
 	s := fmt.Sprintf("%s/%s faults=%v", c13Scenarios[c.Scenario], c.Kind, c.Faults)
 	if c.Inject != nil {
 		s += fmt.Sprintf(" inject=%s@%v#%d", c13Injections[c.Inject.Kind], c.Inject.At.Dir, c.Inject.At.Idx)
+	}
+	if c.Inject2 != nil {
+		s += fmt.Sprintf(" inject2=%s@%v#%d", c13Injections[c.Inject2.Kind], c.Inject2.At.Dir, c.Inject2.At.Idx)
 	}
 	return s
 }
@@ -72,6 +80,7 @@ type c13Result struct {
 	Leaked       int // server routing entries left after everything was closed and timeouts passed
 	ClientLeaked int
 	InjectedAt   time.Duration
+	InjectedAt2  time.Duration
 	GenuineAt    time.Duration // delivery time of the first intact genuine server datagram (-1: none)
 	Datagrams    [2]int
 	Transcript   []string
@@ -212,7 +221,7 @@ func c13Run(t *testing.T, cfg c13Config) c13Result {
 		w.Router.StartPhase(cfg.Faults)
 		phaseStart := time.Since(w.Router.StartTime())
 		var clientEP net.Addr
-		injected := false
+		injected, injected2 := false, false
 		w.Router.OnSend = func(ev sim.Event) {
 			if ev.Dir == sim.C2S && clientEP == nil {
 				clientEP = ev.From
@@ -226,13 +235,22 @@ func c13Run(t *testing.T, cfg c13Config) c13Result {
 				}
 				res.GenuineAt = ev.T + sim.OneWay + extra
 			}
-			if cfg.Inject == nil || injected || ev.Injected || ev.Dir != cfg.Inject.At.Dir || ev.Idx != cfg.Inject.At.Idx {
+			if ev.Injected {
 				return
 			}
-			injected = true
-			if pkt := c13Forge(w, c13Injections[cfg.Inject.Kind]); pkt != nil && clientEP != nil {
-				res.InjectedAt = ev.T + sim.OneWay + time.Microsecond
-				w.Router.Inject(w.ServerAddr, clientEP, pkt, time.Microsecond)
+			if cfg.Inject != nil && !injected && ev.Dir == cfg.Inject.At.Dir && ev.Idx == cfg.Inject.At.Idx {
+				injected = true
+				if pkt := c13Forge(w, c13Injections[cfg.Inject.Kind]); pkt != nil && clientEP != nil {
+					res.InjectedAt = ev.T + sim.OneWay + time.Microsecond
+					w.Router.Inject(w.ServerAddr, clientEP, pkt, time.Microsecond)
+				}
+			}
+			if cfg.Inject2 != nil && !injected2 && ev.Dir == cfg.Inject2.At.Dir && ev.Idx == cfg.Inject2.At.Idx {
+				injected2 = true
+				if pkt := c13Forge(w, c13Injections[cfg.Inject2.Kind]); pkt != nil && clientEP != nil {
+					res.InjectedAt2 = ev.T + sim.OneWay + 2*time.Microsecond
+					w.Router.Inject(w.ServerAddr, clientEP, pkt, 2*time.Microsecond)
+				}
 			}
 		}
 		t0 := time.Now()
@@ -482,15 +500,25 @@ func c13Judge(cfg c13Config, r, base c13Result) *explore.Fail {
 	}
 	// (6) forged packets
 	if cfg.Inject != nil && r.InjectedAt > 0 {
-		ik := c13Injections[cfg.Inject.Kind]
-		alwaysIgnored := ik == "retry-bad-tag" || ik == "vn-with-our-version" || ik == "retry-wrong-odcid" || ik == "corrupt-earlier" || ik == "dup-earlier"
-		afterGenuine := r.GenuineAt >= 0 && r.GenuineAt < r.InjectedAt
-		if (alwaysIgnored || afterGenuine) && r.outcome() != base.outcome() {
-			why := "this forgery must always be ignored"
-			if !alwaysIgnored {
-				why = fmt.Sprintf("it arrived at %v, after a genuine server packet was delivered at %v", r.InjectedAt, r.GenuineAt)
+		// every forged packet of the execution must be one that has to be ignored: by its kind, or
+		// because it arrived after a genuine server packet
+		mustIgnore := func(in *c13Inject, at time.Duration) (bool, string) {
+			ik := c13Injections[in.Kind]
+			if ik == "retry-bad-tag" || ik == "vn-with-our-version" || ik == "retry-wrong-odcid" || ik == "corrupt-earlier" || ik == "dup-earlier" {
+				return true, ik + " must always be ignored"
 			}
-			return explore.Failf(key("outcome-changed"), "%v: outcome [%s] differs from the run without the forged packet [%s]; %s", cfg, r.outcome(), base.outcome(), why)
+			if r.GenuineAt >= 0 && r.GenuineAt < at {
+				return true, fmt.Sprintf("%s arrived at %v, after a genuine server packet was delivered at %v", ik, at, r.GenuineAt)
+			}
+			return false, ""
+		}
+		ok, why := mustIgnore(cfg.Inject, r.InjectedAt)
+		if ok && cfg.Inject2 != nil && r.InjectedAt2 > 0 {
+			ok2, why2 := mustIgnore(cfg.Inject2, r.InjectedAt2)
+			ok, why = ok2, why+"; "+why2
+		}
+		if ok && r.outcome() != base.outcome() {
+			return explore.Failf(key("outcome-changed"), "%v: outcome [%s] differs from the run without the forged packet(s) [%s]; %s", cfg, r.outcome(), base.outcome(), why)
 		}
 	}
 	return nil
@@ -501,7 +529,7 @@ func TestVerifC13(t *testing.T) {
 	baseCache := map[string]c13Result{}
 	baseline := func(cfg c13Config) c13Result {
 		b := cfg
-		b.Inject = nil
+		b.Inject, b.Inject2 = nil, nil
 		k := b.String()
 		if r, ok := baseCache[k]; ok {
 			return r
@@ -616,7 +644,40 @@ func TestVerifC13(t *testing.T) {
 					}
 				}
 			}
-			return cfgs, fmt.Sprintf("every scenario x client kind x %d forged-packet kinds (Version Negotiation with/without the version in use, Retry with invalid tag / valid tag / tag over a wrong original DCID / replayed genuine Retry, Initial with a foreign source connection ID carrying CONNECTION_CLOSE or CRYPTO and protected with the public Initial keys, duplicate and corrupted copy of a genuine server datagram) x injection point = each of the first 5 datagrams of either direction, alone and combined with 1 fault from {drop,dup,delay} on the first 3 datagrams", len(c13Injections))
+			// two forged packets in one execution (the second may meet state the first left behind,
+			// or a connection re-created after a genuine Retry / Version Negotiation)
+			slots := []sim.Slot{}
+			for d := sim.C2S; d <= sim.S2C; d++ {
+				for idx := 0; idx < 5; idx++ {
+					if e.Thorough() || (d == sim.S2C && idx < 3) {
+						slots = append(slots, sim.Slot{Dir: d, Idx: idx})
+					}
+				}
+			}
+			for si := range c13Scenarios {
+				for _, k := range kindsFor(si) {
+					if !e.Thorough() && (si > 2 || k != "plain") {
+						continue
+					}
+					for k1, n1 := range c13Injections {
+						for k2, n2 := range c13Injections {
+							if (n1 == "retry-replay" || n2 == "retry-replay") && c13Scenarios[si] != "retry" {
+								continue
+							}
+							if !e.Thorough() && !(c13PairKind(n1) && c13PairKind(n2)) {
+								continue
+							}
+							for a := range slots {
+								for b := a; b < len(slots); b++ {
+									cfgs = append(cfgs, c13Config{Scenario: si, Kind: k, Seed: uint64(e.Seed) + 21,
+										Inject: &c13Inject{Kind: k1, At: slots[a]}, Inject2: &c13Inject{Kind: k2, At: slots[b]}})
+								}
+							}
+						}
+					}
+				}
+			}
+			return cfgs, fmt.Sprintf("every scenario x client kind x %d forged-packet kinds (Version Negotiation with/without the version in use, Retry with invalid tag / valid tag / tag over a wrong original DCID / replayed genuine Retry, Initial with a foreign source connection ID carrying CONNECTION_CLOSE or CRYPTO and protected with the public Initial keys, duplicate and corrupted copy of a genuine server datagram) x injection point = each of the first 5 datagrams of either direction, alone and combined with 1 fault from {drop,dup,delay} on the first 3 datagrams; two forged packets per execution: ordered pairs of kinds x unordered pairs of injection points (quick: plain client, scenarios plain/retry/vn, kinds {Version Negotiation, Retry with valid tag, forged Initial with CONNECTION_CLOSE}, first 3 server datagrams; thorough: everything)", len(c13Injections))
 		}),
 	}
 	explore.Main("C13", parts, func(msg string) { t.Fatal(msg) })
